@@ -434,6 +434,9 @@ class TBRMatchedMarkets:
       for d in design:
         treatment_geos = {self.data.geo_index[x] for x in d.treatment_geos}
         control_geos = {self.data.geo_index[x] for x in d.control_geos}
+        # Map on a copy: the stored design must keep its geo indices so that
+        # the results can be retrieved repeatedly.
+        d = copy.copy(d)
         d.treatment_geos = treatment_geos
         d.control_geos = control_geos
         output_result.append(d)
